@@ -258,7 +258,7 @@ class Env:
         if re.match(r'<[A-Z][A-Za-z0-9]* as (std::hash::)?BuildHasher>::hash_one$', name) or name.endswith('BuildHasher>::hash_one'):
             k = self.untok(it, args[1])
             return self.hash_fn(it, k)
-        if re.match(r'<S as Default>::default$', name):
+        if re.match(r'<S as Default>::default$', name) or re.match(r'<S as Clone>::clone$', name):
             return Opaque('S::default')
         if re.match(r'<&?(mut )?[A-Z][A-Za-z0-9]* as Fn(Once|Mut)?>::call(_once|_mut)?$', name):
             f = args[0]
@@ -280,6 +280,54 @@ class Env:
                 if 'AtomicPtr<' in want or 'atomic::Atomic<' in want:
                     return Agg('AtomicPtr', None, [v])
             raise Unsupported('Into::into of %r to %s' % (v, want))
+        mm = re.match(r'<(.+) as Iterator>::(all|any|count|for_each)$', name)
+        if mm:
+            nxt = it.prog.resolve('<%s as Iterator>::next' % mm.group(1), 1)
+            if len(nxt) == 1:
+                by_ref = isinstance(args[0], Ptr)
+                h = None if by_ref else Holder(args[0])
+                iref = args[0] if by_ref else Ptr(h, ())
+                n_items = 0
+                res = None
+                while True:
+                    r = it.call_fn(nxt[0], [iref])
+                    if r.variant == 'None':
+                        break
+                    n_items += 1
+                    if last in ('all', 'any'):
+                        fh = Holder(args[1])
+                        b = it.call_value(Ptr(fh, ()), [r.fields[0]])
+                        if it.truth(b) != (last == 'all'):
+                            res = Sc(last == 'any', 'bool')
+                            break
+                    elif last == 'for_each':
+                        fh = Holder(args[1])
+                        it.call_value(Ptr(fh, ()), [r.fields[0]])
+                if h is not None:
+                    it.drop_value(h.val, 'iterator consumed')
+                if last == 'count':
+                    return Sc(n_items, 'usize')
+                if last == 'for_each':
+                    return UNIT
+                return res if res is not None else Sc(last == 'all', 'bool')
+        if re.match(r'<Option as PartialEq>::(eq|ne)$', name):
+            a, b = deref(args[0]), deref(args[1])
+            if a.variant != b.variant:
+                r = False
+            elif a.variant == 'None':
+                r = True
+            else:
+                x, y = a.fields[0], b.fields[0]
+                m = re.search(r'<Option<&?(\w+)', t.callee_full if hasattr(t, 'callee_full') else '')
+                eqs = it.prog.resolve('<reclaim::Shared as PartialEq>::eq', 2)
+                if isinstance(x, Ptr) and isinstance(deref(x), Agg) and eqs and 'Shared' in str(getattr(t, 'callee', '')):
+                    rr = it.call_fn(eqs[0], [x, y])
+                    r = rr.v if rr.concrete else rr.v
+                    if not rr.concrete:
+                        return Sc(r if name.endswith('eq') else z3.Not(r), 'bool')
+                else:
+                    raise Unsupported('Option == Option over %r' % (x,))
+            return Sc(r if name.endswith('eq') else (not r), 'bool')
         if name.endswith('PartialEq>::ne'):
             eqs = it.prog.resolve(name[:-2] + 'eq', 2)
             if len(eqs) == 1:
@@ -447,6 +495,52 @@ class Env:
         if name.endswith('Vec::new') or name.endswith('Vec::with_capacity'):
             a = Alloc([], 'vec', str(t.span))
             return VecV(a)
+        if name.endswith('Vec::push'):
+            v = deref(args[0])
+            v.alloc.val.append(args[1])
+            return UNIT
+        if name.endswith('Vec::pop'):
+            v = deref(args[0])
+            if not v.alloc.val:
+                return Agg('Option', 'None', [])
+            return Agg('Option', 'Some', [v.alloc.val.pop()])
+        if name.endswith('Vec::clear'):
+            v = deref(args[0])
+            for x in v.alloc.val:
+                it.drop_value(x, 'Vec::clear')
+            del v.alloc.val[:]
+            return UNIT
+        if name.endswith('Vec as Deref>::deref') or name.endswith('Vec as DerefMut>::deref_mut') or name.endswith('Vec::as_slice') or name.endswith('Vec::as_mut_slice'):
+            v = deref(args[0])
+            return Ptr(v.alloc, ())
+        if (name.endswith('as Index>::index') or name.endswith('as IndexMut>::index_mut')) and isinstance(deref(args[0]), (VecV, list)):
+            v = deref(args[0])
+            i = it.concretize(args[1], 'vector index')
+            if isinstance(v, VecV):
+                if not (0 <= i < len(v.alloc.val)):
+                    raise Unwind('index out of bounds @ %s' % t.span)
+                return Ptr(v.alloc, (('idx', i),))
+            base = args[0]
+            if not (0 <= i < len(v)):
+                raise Unwind('index out of bounds @ %s' % t.span)
+            return Ptr(base.base, base.path + (('idx', i),))
+        if name.endswith('slice::iter') or name.endswith('Vec::iter'):
+            v = deref(args[0])
+            base = Ptr(v.alloc, ()) if isinstance(v, VecV) else args[0]
+            return Agg('slice::Iter', None, [base, Sc(0, 'usize')])
+        if name.endswith('as Iterator>::next') and isinstance(deref(args[0]), Agg) and deref(args[0]).ty == 'slice::Iter':
+            itv = deref(args[0])
+            base, pos = itv.fields
+            lst = it.load_ptr(base)
+            i = int(pos.v)
+            if i >= len(lst):
+                return Agg('Option', 'None', [])
+            itv.fields[1] = Sc(i + 1, 'usize')
+            return Agg('Option', 'Some', [Ptr(base.base, base.path + (('idx', i),))])
+        if name.endswith('as IntoIterator>::into_iter') and isinstance(args[0], Ptr) and isinstance(deref(args[0]), (VecV, list)):
+            v = deref(args[0])
+            base = Ptr(v.alloc, ()) if isinstance(v, VecV) else args[0]
+            return Agg('slice::Iter', None, [base, Sc(0, 'usize')])
         if name.endswith('Vec::into_boxed_slice'):
             return BoxV(Ptr(args[0].alloc, ()))
         if name.endswith('slice::into_vec') or (name.endswith('as From>::from') and 'Vec<' in raw and isinstance(args[0], BoxV)):
@@ -518,6 +612,13 @@ class Env:
             m.locked = True
             it.held_locks.append(p)
             return MutexGuardV(p)
+        if name.endswith('Mutex::force_unlock'):
+            pm = args[0]
+            m = it.load_ptr(pm)
+            m.locked = False
+            if pm in it.held_locks:
+                it.held_locks.remove(pm)
+            return UNIT
         # ---------------- seize ----------------
         if name.endswith('Collector::new'):
             return CollectorV()
